@@ -155,6 +155,13 @@ Theorem C07_parse_total : forall s, parse_path_expr s = PErr PBadRequest \/ exis
 Proof. exact parse_never_out_of_fuel. Qed.
 Print Assumptions C07_parse_total.
 
+(** every field-path expression: for every expression tree over delimiter-free, non-empty names,
+    parsing its printed form yields its denotation (sequences = concatenation of the alternatives'
+    paths, alternatives = union, groups in any position) *)
+Theorem C07_parse_print_denote : forall e, wf_expr e -> parse_path_expr (print_top e) = POk (denote e).
+Proof. exact parse_print_denote. Qed.
+Print Assumptions C07_parse_print_denote.
+
 (** before the repair: fields=a/b panicked on the candidate a *)
 Example C07_match_old_refuted :
   path_matches_old [[ [x61]; [x62] ]] [ [x61] ] = None
